@@ -138,16 +138,14 @@ EncStrs(l) == Flat(TStrs("", l))
 -----------------------------------------------------------------------------
 (* text forms: lower-case hex as a sequence of character codes; JSON = quoted hex *)
 HexChar(n) == IF n < 10 THEN 48 + n ELSE 87 + n
-RECURSIVE HexEnc(_)
-HexEnc(b) == IF b = <<>> THEN <<>> ELSE <<HexChar(b[1] \div 16), HexChar(b[1] % 16)>> \o HexEnc(Tail(b))
+(* (written with function constructors and SubSeq, which TLC evaluates in linear time) *)
+HexEnc(b) == LET f == [k \in 1..(2 * Len(b)) |-> IF k % 2 = 1 THEN HexChar(b[(k + 1) \div 2] \div 16) ELSE HexChar(b[k \div 2] % 16)]
+             IN SubSeq(f, 1, 2 * Len(b))
 Nib(c) == IF c \in 48..57 THEN c - 48 ELSE IF c \in 97..102 THEN c - 87 ELSE IF c \in 65..70 THEN c - 55 ELSE -1
-RECURSIVE HexGo(_,_,_)
-HexGo(t, i, acc) ==
-  IF i > Len(t) THEN Ok(acc, i)
-  ELSE IF i = Len(t) THEN Err("hex", "text")                     \* odd length
-  ELSE IF Nib(t[i]) < 0 \/ Nib(t[i+1]) < 0 THEN Err("hex", "text")
-  ELSE HexGo(t, i + 2, Append(acc, 16 * Nib(t[i]) + Nib(t[i+1])))
-HexDec(t) == HexGo(t, 1, <<>>)
+(* encoding/hex.Decode: both cases accepted; a non-hex character or an odd length is an error *)
+HexDec(t) ==
+  IF Len(t) % 2 = 1 \/ \E k \in 1..Len(t) : Nib(t[k]) < 0 THEN Err("hex", "text")
+  ELSE LET n == Len(t) \div 2  f == [k \in 1..n |-> 16 * Nib(t[2 * k - 1]) + Nib(t[2 * k])] IN Ok(SubSeq(f, 1, n), Len(t) + 1)
 (* the JSON form used by storage / RPC / p2p: a JSON string holding the hex text.  *)
 (* Only this shape (and the literal null) is specified; other JSON is "err json".  *)
 JsonEnc(t) == <<34>> \o t \o <<34>>
